@@ -14,7 +14,9 @@ AccTyps(cfg, p) ==
 NormP(cfg, p) == [present |-> TRUE, wild |-> FALSE, typs |-> AccTyps(cfg, p), def |-> Carried(cfg, p), doc |-> p.doc]
 Gone == [present |-> FALSE, wild |-> FALSE, typs |-> {}, def |-> "absent", doc |-> "absent"]
 \* a return entry that is neither described nor typed in the docstring has nothing to be written with: it is legitimately absent
-RetWritten(cfg, r) == r.doc # "absent" \/ (r.typ # "absent" /\ (cfg.et \/ cfg.style = "google")) \/ Carried(cfg, r) # "absent"
+\* (Google writes every known type; NumPy every known RETURN type -- the type line is all a return entry has for a name line)
+RetTypWritten(cfg, r) == r.typ # "absent" /\ (cfg.et \/ cfg.style \in {"google", "numpydoc"})
+RetWritten(cfg, r) == r.doc # "absent" \/ RetTypWritten(cfg, r) \/ Carried(cfg, r) # "absent"
 Norm(cfg, i) == [raises |-> "no", wild |-> FALSE, doc |-> i.doc,
                  params |-> [k \in 1..Len(i.params) |-> NormP(cfg, i.params[k])],
                  ret |-> IF i.ret = NoRet \/ ~RetWritten(cfg, i.ret) THEN Gone ELSE NormP(cfg, i.ret)]
@@ -22,22 +24,22 @@ Norm(cfg, i) == [raises |-> "no", wild |-> FALSE, doc |-> i.doc,
 \* ---- named deviations of the as-built code (exact wrong outcomes) ------------------------------------
 \* Each has an abstract trigger and either the exact wrong outcome or (wild) "anything may come back for inputs of
 \* this class".  known_findings.txt lists the open ones; Enabled is that list.
-Devs == {"numpydoc_no_types_unparsable",   \* wild : numpydoc with emit_types=False and a return entry: the return section has no type line; the parser raises / returns garbage
-         "gn_return_only_mangled",         \* wild (return entry): Google/NumPy docstring with a return but no parameters: the return type is mis-sliced
+Devs == {                                  \* (repaired, 9021f5d: numpydoc with emit_types=False wrote a return section without its type line)
+                                           \* (repaired, 2780ff2 + abc442b: a Google/NumPy docstring with a return entry but no parameters was unreadable)
          "code_default_type_dropped",      \* exact: an entry whose default is a code-quoted expression loses its WRITTEN type unless that type has brackets
                                            \*        (the parser distrusts a type next to an expression; before the repair the default itself was lost: wild)
          "str_default_with_dot_truncated", \* wild : a string default containing a full stop is cut at it ("~/data/x.txt" -> "~/data/x", ".txt" lands in the description)
                                            \* (repaired, 0fc255c: a None default came back as the string '(None)' -- the most frequent departure of all)
-         "empty_str_default_lost",         \* exact: an empty-string default is dropped and 'Defaults to' stays in the description
-         "wrapped_default_tail_misread",   \* wild : word wrap falls inside the tail `Defaults to <value>` of a long description: the default is lost or carries the line break
-         "google_undescribed_return_misread", \* wild (return entry): Google, a return entry with a type but no description: `int:` is read as the description
-         "gn_return_default_forced"}       \* exact: Google/NumPy give the return entry a zero/None default once any parameter has one
+                                           \* (repaired, 2e64952: an empty-string default was written as nothing, dropped, and 'Defaults to' stayed in the description)
+         "wrapped_default_tail_misread"}   \* wild : word wrap falls inside the tail `Defaults to <value>` of a long description: the default is lost or carries the line break
+                                           \* (repaired, 381b4a0: Google read the type line `int:` of an undescribed return entry as its description)
+                                           \* (repaired, 867cf18: Google/NumPy gave the return entry a zero/None default once any parameter had one)
 
 \* (the parser was asked to keep the sentence `Defaults to ..` in the description: only Docstring.tla varies it)
 KeepOf(cfg) == IF "keep" \in DOMAIN cfg THEN cfg.keep ELSE FALSE
 \* the type is written into the docstring (Google always writes it)
 Written(cfg, p) == p.typ # "absent" /\ (cfg.et \/ cfg.style = "google")
-ParsedDefault(cfg, p) == cfg.edd /\ p.def \notin {"absent", "str_empty"}
+ParsedDefault(cfg, p) == cfg.edd /\ p.def # "absent"
 ZeroOf(t) == CASE t = "int" -> "int_zero" [] t = "float" -> "zero_float" [] t = "str" -> "str_empty"
                [] t = "bool" -> "bool_F" [] OTHER -> "None"
 
@@ -46,25 +48,13 @@ CodeDrops(en, cfg, p) == "code_default_type_dropped" \in en /\ cfg.edd /\ p.def 
 \* `after` = some earlier parameter carries a parsed default (Google/NumPy then force a default on every later entry)
 AsBuiltPk(en, cfg, p, after) ==
   LET e0 == NormP(cfg, p)
-      e1 == e0
-      e2 == IF "empty_str_default_lost" \in en /\ cfg.edd /\ p.def = "str_empty"
-            THEN [e1 EXCEPT !.def = IF after /\ cfg.style \in {"google", "numpydoc"}
-                                    THEN (IF Written(cfg, p) THEN ZeroOf(p.typ) ELSE "None")     \* the zero of the type the parser can see
-                                    ELSE "absent",
-                            !.doc = "residue"]
-            ELSE e1
-      e3 == IF CodeDrops(en, cfg, p) THEN [e2 EXCEPT !.typs = {"absent"}] ELSE e2
-  IN e3
+  IN IF CodeDrops(en, cfg, p) THEN [e0 EXCEPT !.typs = {"absent"}] ELSE e0
 AsBuiltP(en, cfg, p) == AsBuiltPk(en, cfg, p, FALSE)
-FiredP(en, cfg, p) == {d \in en : \/ (d = "empty_str_default_lost" /\ cfg.edd /\ p.def = "str_empty")
-                                   \/ (d = "code_default_type_dropped" /\ CodeDrops(en, cfg, p))}
+FiredP(en, cfg, p) == {d \in en : (d = "code_default_type_dropped" /\ CodeDrops(en, cfg, p))}
 
 AsBuilt(en, cfg, i) ==
   LET ents == {i.params[k] : k \in 1..Len(i.params)} \cup (IF i.ret = NoRet THEN {} ELSE {i.ret})
-      \* (parameters whose type is not written were affected too until the name line / description repair; what is left is the
-      \* RETURN entry: without its type line the section is read as two parameters called "Returns" and "-------")
-      wildNp == "numpydoc_no_types_unparsable" \in en /\ cfg.style = "numpydoc" /\ ~cfg.et /\ i.ret # NoRet
-      retOnly == "gn_return_only_mangled" \in en /\ cfg.style \in {"google", "numpydoc"} /\ i.ret # NoRet /\ i.params = <<>>
+      wildNp == FALSE
       wildWrap == "wrapped_default_tail_misread" \in en /\ cfg.edd
                   /\ \E k \in 1..Len(i.params) : /\ i.params[k].doc = "long" /\ i.params[k].def # "absent"
                                                   /\ (cfg.style = "numpydoc" \/ (cfg.style = "rest" /\ ~KeepOf(cfg) /\ i.params[k].def = "str_odd"))
@@ -72,20 +62,12 @@ AsBuilt(en, cfg, i) ==
       \* (a QUOTED default -- any typed string -- is read to its closing quote since the repair; an untyped entry's default is written
       \* bare, where a full stop cannot be told from the end of the sentence)
       wildDot == "str_default_with_dot_truncated" \in en /\ cfg.edd /\ \E p \in ents : p.def = "str_dot" /\ p.typ = "absent"
-      forced == "gn_return_default_forced" \in en /\ cfg.style \in {"google", "numpydoc"} /\ i.ret # NoRet
-                /\ \E k \in 1..Len(i.params) : ParsedDefault(cfg, i.params[k])
       ret0 == IF i.ret = NoRet THEN Gone ELSE AsBuiltP(en, cfg, i.ret)
-      gUndesc == "google_undescribed_return_misread" \in en /\ cfg.style = "google" /\ i.ret # NoRet /\ i.ret.doc = "absent"
       ret1 == IF ~(i.ret = NoRet) /\ ~RetWritten(cfg, i.ret) THEN Gone
-              ELSE IF gUndesc \/ retOnly THEN [ret0 EXCEPT !.wild = TRUE]
-              ELSE IF forced THEN [ret0 EXCEPT !.def = ZeroOf(i.ret.typ)] ELSE ret0
+              ELSE ret0
       fired == UNION {FiredP(en, cfg, p) : p \in ents}
-               \cup (IF wildNp THEN {"numpydoc_no_types_unparsable"} ELSE {})
                \cup (IF wildDot THEN {"str_default_with_dot_truncated"} ELSE {})
                \cup (IF wildWrap THEN {"wrapped_default_tail_misread"} ELSE {})
-               \cup (IF forced THEN {"gn_return_default_forced"} ELSE {})
-               \cup (IF retOnly THEN {"gn_return_only_mangled"} ELSE {})
-               \cup (IF gUndesc THEN {"google_undescribed_return_misread"} ELSE {})
   IN [out |-> [raises |-> "no", wild |-> wildNp \/ wildCode \/ wildDot \/ wildWrap, doc |-> i.doc,
                params |-> [k \in 1..Len(i.params) |->
                              AsBuiltPk(en, cfg, i.params[k], \E j \in 1..(k - 1) : ParsedDefault(cfg, i.params[j]))],
